@@ -45,6 +45,19 @@ def _pilot(nodes=0, cores=0, gpus=0, backup=0):
 
 
 def run_all(rp, tier='quick'):
+    # _prepare_pilot leaves one rp.agent_cfg.* directory per call in the temp directory:
+    # give it a private one and remove it afterwards
+    import tempfile, shutil
+    saved, private = tempfile.tempdir, tempfile.mkdtemp(prefix='verif_pilot_')
+    tempfile.tempdir = private
+    try:
+        return _run_all(rp, tier)
+    finally:
+        tempfile.tempdir = saved
+        shutil.rmtree(private, ignore_errors=True)
+
+
+def _run_all(rp, tier='quick'):
     import radical.utils as ru
     os.environ.pop('RADICAL_SMT', None)
     # _prepare_pilot looks radical-utils-env.sh up on PATH: the interpreter's bin directory has it
